@@ -71,13 +71,28 @@ Definition mk_cache (l : list (name * (N * N * N))) : @smap name (rentry N) :=
 Definition mk_server (l : list (name * (N * N))) : server N :=
   fold_left (fun acc '(n, vb) => upd n vb acc) l [].
 
+(* which requests a poll must have issued by its end: exactly one per live name of the snapshot;
+   after a failed request the rest may be skipped (the poll fails either way), but never
+   duplicated or invented *)
+Definition req_failed (fl : flight N) : bool :=
+  existsb (fun '(n, i) => match req_version (fsnap fl) n with
+                          | Some v => match answer i n v with RErr => true | _ => false end
+                          | None => true end) (finst fl).
+Fixpoint nodupb (l : list name) : bool :=
+  match l with [] => true | x :: r => negb (mem x r) && nodupb r end.
+Definition well_requested (fl : flight N) : bool :=
+  if req_failed fl
+  then (let want := map fst (requests (fsnap fl)) in let got := map fst (finst fl) in
+        nodupb got && forallb (fun n => mem n want) got)
+  else complete fl.
+
 Fixpoint steps_ok (w : world N) (l : list ostep) : bool :=
   match l with
   | [] => true
   | s :: r =>
     let '(e, strict, obs) := match s with St e o => (e, true, o) | Sb e o => (e, false, o) end in
     let pre := match e, wfl w with
-               | EEnd, Some fl => complete fl
+               | EEnd, Some fl => well_requested fl
                | EEnd, None => false
                | EReq _ _ _, None => false
                | _, _ => true
